@@ -149,6 +149,18 @@ CHECKS["C15"]["text"] += " The hardware type of the request varies over {1, 6, 3
 CHECKS["C16"]["text"] += " Wide scenarios: 1200 (thorough 6000) requests of different clients are handled one at a time and all in flight at once (round-robin policy schedule); replies, answered transactions and distinct addresses/prefixes must agree."
 CHECKS["C16"]["technique"] += "; plus one policy-driven (round-robin) schedule with 1200/6000 handler threads in flight"
 CHECKS["C18"]["text"] += " Plugin items include argument strings with literal quotes, backslashes, '#', ',' ';' and escaped tab/newline (arguments are exactly the whitespace-separated fields)."
+# ---- additions of seed round 7
+CHECKS["C02"]["text"] += " Irrelevant-option closure: for every other option code (three payload shapes) two clients ask with and without it in both orders; time-gap sweeps (1 s .. 61 min between two requests of one client, three lease times)."
+CHECKS["C03"]["text"] += " The irrelevant-option closure and the time-gap sweeps of C02 run with the crash-image oracle after every step."
+CHECKS["C04"]["text"] += " Far hints include a 2^33-block pool (indices beyond 32 bits); a block returned for a hint is named again by the next hint and must not come back."
+CHECKS["C05"]["text"] += " Free-each-after-fill: pools of 65..257 (thorough 1024) blocks filled, then every block (and descending pairs) freed and re-allocated without hint: the allocation must succeed and return a freed block."
+CHECKS["C06"]["text"] += " Free of EVERY block that is not outstanding, on fresh and half-allocated pools of 257/1024 blocks, must fail."
+CHECKS["C08"]["text"] += " Irrelevant-option closure (every other DHCPv6 option code, three payload shapes, before/after the IA_PDs); the same client reached through different relay agents (link-address variants) and directly."
+CHECKS["C09"]["text"] += " Irrelevant-option closure and relay link-address variants as in C08."
+CHECKS["C12"]["text"] += " Replies of 1.2-20 KiB (long Interface-ID / client identifier) on listeners bound to every host interface; a well-formed relayed request of a supported type that gets no reply under a non-dropping chain is a violation."
+CHECKS["C15"]["text"] += " Irrelevant-field closure: one representative per cascade rule x every other option code (three payload shapes) and hops/secs values."
+CHECKS["C17"]["text"] += " Accepted vectors include lists longer than 255 octets (searchdomains, dns, router, staticroute): the value must arrive complete (RFC 3396 splitting is accepted)."
+CHECKS["C19"]["text"] += " The request battery varies vendor class (6 values) and option 93 (absent, empty, odd length, one or two architectures) independently."
 ALL = ["C%02d" % i for i in range(1, 21)]
 NA_REASON = "check not built yet in this session (planned, see DESIGN.md section 5); will be claimed once its machinery exists"
 m = {
